@@ -26,7 +26,8 @@ flags do not).
     case variants with integer / negative / string / float / forward-symbol / nested-call arguments, one and two arguments,
     calls inside larger formulas): machine = declarative meaning wherever that is definite (invariant Agreement);
     definitions are rejected exactly where the manual says (DefAgreement); CompressLine is undone by ExpandLine
-    (TokenRoundTrip).  quick: 41 curated programs (+ prefixes; 63 states, ~3.6 k cases); thorough: + every single definition
+    (TokenRoundTrip).  quick: 38 curated programs (+ prefixes; 63 program x option states, ~3.8 k cases); thorough
+    (8088 states, ~414 k cases, ~12 min of TLC): + every single definition
     {f, Abs} x 8 parameter lists x the grammar E ::= p | 2 | s | E (+|*|-) E | g(E) | abs(E) | f(E,E) of depth 2 and 16
     special bodies, + pairs first definition x core definition, each under {default, -U} x RADIX {10, 16, 8}.
     Four mutations of the MODEL must be refuted by TLC (UserFunc_MC_dev_*.cfg): values pasted without parentheses,
@@ -150,81 +151,114 @@ def same(exp, obs):
     return True          # unspec / overflow: no expectation
 
 
-def run(rep, bld, tier):
-    quick = tier == "quick"
-    from vlib.common import pmap
+def fanout(st):
+    """a function whose body calls itself twice (userfunc_recursion_fanout: does not end on the pinned tree)"""
+    return any(d["line"].split(",", 1)[-1].count(d["line"].split()[0] + "(") >= 2 for d in st["defs"])
 
-    def job(cfg):
-        return tlc.run("UserFunc_MC", cfg, workers=4 if cfg in ("UserFunc_MC.cfg", "UserFunc_MC_full.cfg") else 1,
-                       timeout=300 if quick else 2400, mem="4g", collect=cfg in ("UserFunc_MC.cfg", "UserFunc_MC_full.cfg"))
-    main_cfg = "UserFunc_MC.cfg" if quick else "UserFunc_MC_full.cfg"
-    with Phase("userfunc: TLC model check + case generation, %d model mutations" % len(DEV_CFGS)):
-        outs = pmap(job, [main_cfg] + DEV_CFGS, workers=3)
-    r = tlc.must(outs[0], "UserFunc_MC")
-    if r.violation:
-        raise CheckError("UserFunc_MC(%s): the specification violates its own invariants: %s" % (main_cfg, r.violation[:800]))
-    rep.model("UserFunc_MC(%s)" % main_cfg, r)
-    for cfg, d in zip(DEV_CFGS, outs[1:]):
-        if d.error and not d.violation:
-            raise CheckError("UserFunc_MC(%s): %s" % (cfg, d.error[:400]))
-        if not d.violation:
-            raise CheckError("UserFunc_MC(%s): the mutation of the model is not refuted" % cfg)
-    states = [o for (tag, o) in r.printed if tag == "OUT"]
-    if not states:
-        raise CheckError("UserFunc_MC printed no case")
 
-    # ---- replay ------------------------------------------------------------------------------------------------
-    def opts(st):
-        return ["-q"] + (["-U"] if st["cs"] else [])
+def opts(st):
+    return ["-q"] + (["-U"] if st["cs"] else [])
 
-    def asm(js, timeout=8):
-        """js: (state, p, two, [cases]) -> [(job, source, slots, result)]"""
-        rend = [render(st, p, two, cs) for (st, p, two, cs) in js]
-        res = aslrun.assemble_many(bld, [{"sources": {"a.asm": src}, "opts": opts(j[0]), "timeout": timeout}
-                                         for j, (src, _) in zip(js, rend)])
-        return [(j, src, slots, r) for j, (src, slots), r in zip(js, rend, res)]
 
-    # a function whose body calls itself twice: as long as that does not end (known finding) two cases are enough
-    def fanout(st):
-        return any(d["line"].split(",", 1)[-1].count(d["line"].split()[0] + "(") >= 2 for d in st["defs"])
+def asm(bld, js):
+    """js: (state, p, two, [cases], timeout) -> [(job, source, slots, result)]"""
+    rend = [render(j[0], j[1], j[2], j[3]) for j in js]
+    res = aslrun.assemble_many(bld, [{"sources": {"a.asm": src}, "opts": opts(j[0]), "timeout": j[4]}
+                                     for j, (src, _) in zip(js, rend)])
+    return [(j, src, slots, r) for j, (src, slots), r in zip(js, rend, res)]
 
-    batches, probes_first, unobservable, skipped = [], [], 0, 0
+
+class Tally:
+    def __init__(self):
+        self.cases = self.verdict = self.open = self.drift = self.bad = self.shown = self.sources = 0
+        self.unobservable = self.skipped = 0
+        self.sample = None
+
+
+def judge(rep, t, st, p, tw, c, src, obs):
+    t.cases += 1
+    doc, mach = c["doc"], c["mach"]
+    rep.evaluated()
+    rep.distinct((st["cs"], st["radix"], tuple(d["line"] for d in st["defs"]), p, tw, c["e"]), True)
+    info = {"options": {"U": st["cs"], "radix": st["radix"]}, "definitions": [d["line"] for d in st["defs"]],
+            "probe": c["e"], "position": p, "two_passes": tw, "declarative": doc, "as_coded": mach, "observed": obs,
+            "deviations": c["dev"]}
+    devs = sorted(c["dev"])
+    if obs["k"] == "crash":
+        t.bad += 1
+        hang = obs["how"] == "timeout"
+        rep.violation("user function: the assembler %s on `%s` after %s" %
+                      ("does not end" if hang else "crashes (%s)" % obs["how"], c["e"], info["definitions"]),
+                      case=info, files={"a.asm": render(st, p, tw, [c])[0], "batch.asm": src},
+                      key={"dev": "userfunc_recursion_fanout" if (hang and fanout(st)) else (devs[0] if devs else "none"),
+                           "obs": "crash"})
+        return
+    if doc["k"] in ("int", "float", "str", "error"):
+        t.verdict += 1
+        if not same(doc, obs):
+            t.bad += 1
+            what = ("user function call `%s` (definitions %s%s%s, probe behind %d of them, %s): the manual gives %s, "
+                    "the assembler %s" % (c["e"], info["definitions"], ", -U" if st["cs"] else "",
+                                          ", RADIX %d" % st["radix"] if st["radix"] != 10 else "", p,
+                                          "two passes" if tw else "one pass", doc,
+                                          "reports an error" if obs["k"] == "error" else "yields bytes %s" % obs.get("b")))
+            keys = [{"dev": d, "obs": obs["k"]} for d in devs] or [{"dev": "none", "obs": obs["k"], "call": c["call"]}]
+            key = next((k for k in keys if rep._match_known(k) is not None), keys[0])
+            rep.violation(what, case=info, files={"a.asm": render(st, p, tw, [c])[0], "batch.asm": src}, key=key)
+            return
+        if t.sample is None and doc["k"] in ("int", "str") and len(st["defs"]) > 1 and c["call"] != "-":
+            t.sample = {"definitions": info["definitions"], "probe": c["e"], "expected": doc, "observed": obs,
+                        "options": info["options"], "source": render(st, p, tw, [c])[0]}
+    else:
+        t.open += 1
+    if not devs and not same(mach, obs):
+        t.drift += 1
+        if t.shown < 5:
+            t.shown += 1
+            rep.drift("user function model: `%s` with %s (p=%d, %s, -U=%s, radix %d): transcription of the code says %s, "
+                      "observed %s" % (c["e"], info["definitions"], p, "2 passes" if tw else "1 pass", st["cs"], st["radix"],
+                                       mach, obs))
+
+
+def replay(rep, bld, states, t):
+    """render, assemble and judge the cases of these states"""
+    batches, first = [], []
     for st in states:
         if st["redef"] or any(d["doc"] == "error" for d in st["defs"]):
             # the program as a whole is rejected (or the manual does not say): probe values cannot be seen; the
-            # definitions part below looks at the error messages
-            unobservable += len(st["cases"])
+            # definitions part looks at the error messages
+            t.unobservable += len(st["cases"])
             continue
         groups = {}
         for c in st["cases"]:
             groups.setdefault((c["p"], c["two"]), []).append(c)
         if fanout(st):
-            probes_first.append((st, groups))
+            first.append((st, groups))
             continue
         for (p, two), cs in sorted(groups.items()):
             cs.sort(key=lambda c: c["e"])
-            vals = [c for c in cs if c["mach"]["k"] in ("int", "float", "str") and c["doc"]["k"] != "error"]
-            errs = [c for c in cs if c not in vals]
-            batches += [(st, p, two, part) for part in (vals, errs) if part]
+            # a case that runs into a named deviation of the pinned code stands alone: it may take the file with it
+            alone = [c for c in cs if c["dev"]]
+            vals = [c for c in cs if not c["dev"] and c["mach"]["k"] in ("int", "float", "str") and c["doc"]["k"] != "error"]
+            errs = [c for c in cs if not c["dev"] and c not in vals]
+            batches += [(st, p, two, part, 8) for part in (vals, errs) if part] + [(st, p, two, [c], 8) for c in alone]
     done = []            # (state, p, two, case, source, observation)
-    if probes_first:
-        with Phase("userfunc: recursion with two calls in the body (%d programs)" % len(probes_first)):
-            for st, groups in probes_first:
-                n = len(st["defs"])
-                rec = [c for c in groups.get((n, False), []) if c["mach"]["k"] == "error"][:2]
-                out = asm([(st, n, False, [c]) for c in rec], timeout=4)
-                if any(r.timeout for (_, _, _, r) in out):
-                    for (j, src, slots, r) in out:
-                        done.append((st, n, False, j[3][0], src, observe(r, slots[0][0], slots[0][1])))
-                    skipped += len(st["cases"]) - len(rec)
-                else:
-                    for (p, two), cs in sorted(groups.items()):
-                        batches += [(st, p, two, [c]) for c in cs]
-    with Phase("userfunc: assemble %d sources (%d states, %d cases)" % (len(batches), len(states), sum(len(s["cases"]) for s in states))):
-        out = asm(batches)
+    # as long as the recursion with two calls does not end (known finding) two cases per such program are enough
+    heads = []
+    for st, groups in first:
+        n = len(st["defs"])
+        heads += [(st, n, False, [c], 3) for c in [c for c in groups.get((n, False), []) if c["mach"]["k"] == "error"][:2]]
+    out = asm(bld, heads + batches)
+    hanging = {id(j[0]) for (j, _, _, r) in out[:len(heads)] if r.timeout}
     singles = []
+    for st, groups in first:
+        if id(st) in hanging:
+            t.skipped += len(st["cases"]) - sum(1 for h in heads if h[0] is st)
+        else:
+            for (p, two), cs in sorted(groups.items()):
+                singles += [(st, p, two, [c], 8) for c in cs if not any(h[0] is st and h[3][0] is c for h in heads)]
     for (j, src, slots, r) in out:
-        st, p, two, cs = j
+        st, p, two, cs = j[:4]
         clean = not er.crashed(r) and r.rc == 0 and r.p is not None
         errl = set() if er.crashed(r) else er.error_lines(r)
         for c, (slot, line) in zip(cs, slots):
@@ -233,95 +267,85 @@ def run(rep, bld, tier):
             elif line in errl and not (r.rc == 3 and line == max(errl)):
                 done.append((st, p, two, c, src, {"k": "error", "lines": [line], "here": True}))
             else:
-                singles.append((st, p, two, [c]))        # no code file and no message of its own: look at it alone
-    if singles:
-        with Phase("userfunc: %d cases one by one" % len(singles)):
-            for (j, src, slots, r) in asm(singles):
-                done.append((j[0], j[1], j[2], j[3][0], src, observe(r, slots[0][0], slots[0][1])))
+                singles.append((st, p, two, [c], 8))     # no code file and no message of its own: look at it alone
+    for (j, src, slots, r) in asm(bld, singles):
+        done.append((j[0], j[1], j[2], j[3][0], src, observe(r, slots[0][0], slots[0][1])))
+    t.sources += len(batches) + len(singles)
+    for d in done:
+        judge(rep, t, *d)
 
-    n_cases = n_verdict = n_open = drift = bad = drift_shown = 0
-    for (st, p, tw, c, src, obs) in done:
-        n_cases += 1
-        doc, mach = c["doc"], c["mach"]
-        rep.evaluated()
-        rep.distinct((st["cs"], st["radix"], tuple(d["line"] for d in st["defs"]), p, tw, c["e"]), True)
-        info = {"options": {"U": st["cs"], "radix": st["radix"]}, "definitions": [d["line"] for d in st["defs"]],
-                "probe": c["e"], "position": p, "two_passes": tw, "declarative": doc, "as_coded": mach, "observed": obs,
-                "deviations": c["dev"]}
-        devs = sorted(c["dev"])
-        single = render(st, p, tw, [c])[0]
-        if obs["k"] == "crash":
-            bad += 1
-            hang = obs["how"] == "timeout"
-            rep.violation("user function: the assembler %s on `%s` after %s" %
-                          ("does not end" if hang else "crashes (%s)" % obs["how"], c["e"], info["definitions"]),
-                          case=info, files={"a.asm": single, "batch.asm": src},
-                          key={"dev": "userfunc_recursion_fanout" if (hang and fanout(st)) else (devs[0] if devs else "none"),
-                               "obs": "crash"})
-            continue
-        if doc["k"] in ("int", "float", "str", "error"):
-            n_verdict += 1
-            if not same(doc, obs):
-                bad += 1
-                what = ("user function call `%s` (definitions %s%s%s, probe behind %d of them, %s): the manual gives %s, "
-                        "the assembler %s" % (c["e"], info["definitions"], ", -U" if st["cs"] else "",
-                                              ", RADIX %d" % st["radix"] if st["radix"] != 10 else "", p,
-                                              "two passes" if tw else "one pass", doc,
-                                              "reports an error" if obs["k"] == "error" else "yields bytes %s" % obs.get("b")))
-                keys = [{"dev": d, "obs": obs["k"]} for d in devs] or [{"dev": "none", "obs": obs["k"], "call": c["call"]}]
-                key = next((k for k in keys if rep._match_known(k) is not None), keys[0])
-                rep.violation(what, case=info, files={"a.asm": single, "batch.asm": src}, key=key)
-                continue
-        else:
-            n_open += 1
-        if not devs and not same(mach, obs):
-            drift += 1
-            if drift_shown < 5:
-                drift_shown += 1
-                rep.drift("user function model: `%s` with %s (p=%d, %s, -U=%s, radix %d): transcription of the code says %s, "
-                          "observed %s" % (c["e"], info["definitions"], p, "2 passes" if tw else "1 pass", st["cs"], st["radix"],
-                                           mach, obs))
-    jobs = batches + singles
-    # ---- definitions: an error exactly where the manual demands one ----------------------------------------------------
-    djobs = []
-    for st in states:
-        if st["defs"]:
-            src, _ = render(st, len(st["defs"]), False, [])
-            djobs.append((st, src))
-    dres = aslrun.assemble_many(bld, [{"sources": {"a.asm": src}, "opts": ["-q"] + (["-U"] if st["cs"] else []), "timeout": 6}
-                                      for st, src in djobs])
+    # ---- definitions: an error exactly where the manual demands one, none on a well-formed statement --------------
+    djobs = [(st, render(st, len(st["defs"]), False, [])[0]) for st in states if st["defs"]]
+    dres = aslrun.assemble_many(bld, [{"sources": {"a.asm": src}, "opts": opts(st), "timeout": 6} for st, src in djobs])
+    t.sources += len(djobs)
     for (st, src), res in zip(djobs, dres):
-        first = len(HEADER.rstrip("\n").split("\n")) + (1 if st["radix"] != 10 else 0) + 1
+        first_line = len(HEADER.rstrip("\n").split("\n")) + (1 if st["radix"] != 10 else 0) + 1
         errs = er.error_lines(res)
         for i, d in enumerate(st["defs"]):
-            n_cases += 1
+            t.cases += 1
             rep.evaluated()
-            got_err = (first + i) in errs
+            got_err = (first_line + i) in errs
             if er.crashed(res):
-                bad += 1
+                t.bad += 1
                 rep.violation("FUNCTION statement `%s`: abnormal end rc=%s sig=%s" % (d["line"], res.rc, res.sig),
                               case=st["defs"], files={"a.asm": src}, key={"dev": "none", "obs": "crash"})
             elif d["doc"] == "error" and not got_err:
-                bad += 1
+                t.bad += 1
                 rep.violation("FUNCTION statement `%s` violates the documented form (parameter names must be macro symbol names; "
                               "at least one parameter) but no error is reported on its line" % d["line"],
                               case=st["defs"], files={"a.asm": src}, key={"dev": "none", "obs": "silent", "call": "FUNCTION"})
             elif d["doc"] == "ok" and d["mach"] == "ok" and got_err:
-                bad += 1
+                t.bad += 1
                 rep.violation("well-formed FUNCTION statement `%s` is rejected: %s" % (d["line"], (res.out + res.err)[-200:]),
                               case=st["defs"], files={"a.asm": src}, key={"dev": "none", "obs": "error", "call": "FUNCTION"})
             elif (d["mach"] != "ok") != got_err:
-                drift += 1
-                if drift_shown < 5:
-                    drift_shown += 1
+                t.drift += 1
+                if t.shown < 5:
+                    t.shown += 1
                     rep.drift("user function model: FUNCTION statement `%s` status as coded %s, error observed: %s"
                               % (d["line"], d["mach"], got_err))
-    rep.traces(len(jobs) + len(djobs))
-    rep.part("UserFunc(replay)", states=len(states), cases=n_cases, with_verdict=n_verdict, open_in_manual=n_open,
-             sources=len(jobs) + len(djobs), mismatches=bad, drift=drift, model_mutations_refuted=len(DEV_CFGS),
-             skipped_while_recursion_fanout_hangs=skipped, cases_of_rejected_programs=unobservable)
-    vs = [d for d in done if d[3]["doc"]["k"] in ("int", "str") and d[0]["defs"]]
-    if vs:
-        d = vs[len(vs) // 2]
-        rep.sample({"definitions": [x["line"] for x in d[0]["defs"]], "probe": d[3]["e"], "expected": d[3]["doc"],
-                    "observed": d[5], "options": {"U": d[0]["cs"], "radix": d[0]["radix"]}, "source": render(d[0], d[1], d[2], [d[3]])[0]})
+
+
+def run(rep, bld, tier):
+    quick = tier == "quick"
+    from vlib.common import pmap
+    main_cfg = "UserFunc_MC.cfg" if quick else "UserFunc_MC_full.cfg"
+    fixed_cfg = "UserFunc_MC_fixed.cfg"
+
+    def job(cfg):
+        return tlc.run("UserFunc_MC", cfg, workers=4 if cfg == main_cfg else 1, timeout=300 if quick else 3000,
+                       mem="6g", collect=cfg == main_cfg)
+    cfgs = [main_cfg] + DEV_CFGS + ([] if quick else [fixed_cfg])
+    with Phase("userfunc: TLC model check + case generation, %d model mutations" % len(DEV_CFGS)):
+        outs = pmap(job, cfgs, workers=3)
+    r = tlc.must(outs[0], "UserFunc_MC")
+    if r.violation:
+        raise CheckError("UserFunc_MC(%s): the specification violates its own invariants: %s" % (main_cfg, r.violation[:800]))
+    rep.model("UserFunc_MC(%s)" % main_cfg, r)
+    for cfg, d in zip(cfgs[1:], outs[1:]):
+        if d.error and not d.violation:
+            raise CheckError("UserFunc_MC(%s): %s" % (cfg, d.error[:400]))
+        if cfg in DEV_CFGS and not d.violation:
+            raise CheckError("UserFunc_MC(%s): the mutation of the model is not refuted" % cfg)
+        if cfg == fixed_cfg:
+            if d.violation:
+                raise CheckError("UserFunc_MC(%s): the model with the proposed repairs violates Agreement: %s" % (cfg, d.violation[:400]))
+            rep.model("UserFunc_MC(%s)" % cfg, d)
+    states = [o for (tag, o) in r.printed if tag == "OUT"]
+    r.printed = []
+    if not states:
+        raise CheckError("UserFunc_MC printed no case")
+    t = Tally()
+    n_states, n_all = len(states), sum(len(s["cases"]) for s in states)
+    with Phase("userfunc: replay of %d cases of %d programs into the real asl" % (n_all, n_states)):
+        # the programs with a recursion first (a hanging assembler costs seconds), then chunks (memory of the worker pool)
+        states.sort(key=lambda st: not fanout(st))
+        while states:
+            chunk, states = states[:400], states[400:]
+            replay(rep, bld, chunk, t)
+    rep.traces(t.sources)
+    rep.part("UserFunc(replay)", states=n_states, cases=t.cases, with_verdict=t.verdict, open_in_manual=t.open,
+             sources=t.sources, mismatches=t.bad, drift=t.drift, model_mutations_refuted=len(DEV_CFGS),
+             skipped_while_recursion_fanout_hangs=t.skipped, cases_of_rejected_programs=t.unobservable)
+    if t.sample:
+        rep.sample(t.sample)
